@@ -56,7 +56,12 @@ void h_gens_parse(void) {
     INPUT_BUF(buf, data, len, 66);
     g = secp256k1_bppp_generators_parse(&ctx, use_data ? data : NULL, len);
     WITNESS_BUF(buf, data, len, 66);
+#ifdef GENS_OOM
+    /* variant run with --malloc-may-fail: any allocation may return NULL */
+    __CPROVER_assert(g_error <= 1 && (g_error == 0 || g == NULL), "C19 generators_parse: allocation failure => one error callback and NULL");
+#else
     __CPROVER_assert(g_error == 0, "C19 generators_parse: error callback never invoked (allocation succeeds)");
+#endif
     if (!use_data) __CPROVER_assert(g == NULL && g_illegal == 1, "C19 generators_parse: NULL data is an illegal argument, result NULL");
     if (use_data) __CPROVER_assert(g_illegal == 0, "C19 generators_parse: no illegal callback for non-NULL arguments");
     if (len % 33 != 0) __CPROVER_assert(g == NULL, "C19 generators_parse: length not a multiple of 33 => NULL");
@@ -71,6 +76,9 @@ void h_gens_parse(void) {
     if (g != NULL && n_out == 0) REACH("empty list parsed");
     if (g == NULL && use_data && len % 33 == 0 && len >= 66) REACH("malformed element rejected");
     if (g == NULL && use_data && len % 33 != 0) REACH("bad length rejected");
+#ifdef GENS_OOM
+    if (g == NULL && g_error == 1) REACH("allocation failure");
+#endif
     secp256k1_bppp_generators_destroy(&ctx, g);
     free(data);
     /* --memory-leak-check obligation follows the harness */
